@@ -94,7 +94,9 @@ impl Streams {
                 let mut stream = Stream::new();
                 stream.add_value(value, generation)?;
                 let descriptor = StreamDescriptor::global(stream);
-                self.streams.insert(name.to_string(), vec![descriptor]);
+                // restricted streams of scopes that are still being executed must stay in place:
+                // the global stream is the widest scope and goes first
+                self.streams.entry(name.to_string()).or_default().insert(0, descriptor);
             }
         }
         Ok(())
